@@ -1,6 +1,6 @@
 (* C06 — The duty store serves one unique datum per key and never blocks a satisfiable query.
    Only statements here; proofs are in Stores/DutyDBFacts.v, the model in Stores/DutyDB.v.
-   [run init ls = Some s] says "ls is a label sequence the duty store model can produce" (any
+   [run xinit ls = Some s] says "ls is a label sequence the duty store model can produce" (any
    interleaving of Store / Await* registration / reader return / cancellation / expiry /
    PubKeyByAttestation, any map iteration order, any deadliner verdicts, unbounded length); the
    correspondence check establishes that the label sequences recorded from core/dutydb/memory.go are
@@ -11,15 +11,17 @@ Import ListNotations.
 Local Open Scope N_scope.
 
 (* Every trace of the model passes the trace monitor that transcribes the property. *)
-Theorem C06_monitor : forall ls s, run init ls = Some s -> monitor ls = true.
+Theorem C06_monitor : forall ls s, run xinit ls = Some s -> monitor ls = true.
 Proof. exact run_monitor. Qed.
 Print Assumptions C06_monitor.
 
-(* What "disciplined" means: every entry of a set stored for duty (t, slot) is about that slot, and
-   a duty that the deadliner has emitted is never Scheduled again (the latter is property C16). *)
+(* What "disciplined" means: a duty that the deadliner has emitted never gets the verdict Scheduled
+   again (property C16; [LAdd] is the instant of the verdict, NOT the later write), and every entry
+   of a set stored for duty (t, slot) is about that slot. *)
 Theorem C06_disciplined_spec : forall ls, disciplined ls = true <->
+  (forall pre d post, ls = pre ++ LAdd d Scheduled :: post -> ~ In (LExpire d) pre) /\
   (forall pre d vis unv res post, ls = pre ++ LStore d Scheduled vis unv res :: post ->
-     ~ In (LExpire d) pre /\ forall e, In e vis -> entry_slots_ok (snd d) e = true).
+     forall e, In e vis -> entry_slots_ok (snd d) e = true).
 Proof. exact disciplined_spec. Qed.
 Print Assumptions C06_disciplined_spec.
 
@@ -27,7 +29,7 @@ Print Assumptions C06_disciplined_spec.
    committee-index-0 attestation key (slot, 0) this says: the value served is the one stored first
    and never changes, although later attestation data with another head (same source and target)
    is accepted for its own committee key. *)
-Theorem C06_answers_unique : forall ls s, run init ls = Some s -> disciplined ls = true ->
+Theorem C06_answers_unique : forall ls s, run xinit ls = Some s -> disciplined ls = true ->
   forall pre q1 k c1 mid q2 c2 post,
     ls = pre ++ LAnswer q1 k c1 :: mid ++ LAnswer q2 k c2 :: post -> c1 = c2.
 Proof. intros ls s H. exact (answers_unique ls (run_monitor ls s H)). Qed.
@@ -37,27 +39,27 @@ Print Assumptions C06_answers_unique.
    a disciplined trace in which two readers of one key get different data; the repaired model
    rejects that trace. *)
 Theorem C06_answers_unique_agg_refuted_before_fix :
-  (exists s, run_gen true init f2_trace = Some s) /\ disciplined f2_trace = true /\ monitor f2_trace = false
-  /\ run init f2_trace = None.
+  (exists s, run_gen true xinit f2_trace = Some s) /\ disciplined f2_trace = true /\ monitor f2_trace = false
+  /\ run xinit f2_trace = None.
 Proof. exact answers_unique_agg_refuted_before_fix. Qed.
 Print Assumptions C06_answers_unique_agg_refuted_before_fix.
 
 (* Without the discipline uniqueness across an expiry fails (this is why C06 leans on C16). *)
 Theorem C06_answers_unique_needs_discipline :
-  (exists s, run init undisciplined_trace = Some s) /\ disciplined undisciplined_trace = false.
+  (exists s, run xinit undisciplined_trace = Some s) /\ disciplined undisciplined_trace = false.
 Proof. exact answers_unique_needs_discipline. Qed.
 Print Assumptions C06_answers_unique_needs_discipline.
 
 (* answer_is_stored: a blocking query returns only to a reader that asked for that key, and only
    data that was handed for that very key, in a visited entry, to a Store that was not refused. *)
-Theorem C06_answer_is_stored : forall ls s, run init ls = Some s ->
+Theorem C06_answer_is_stored : forall ls s, run xinit ls = Some s ->
   forall pre q k c post, ls = pre ++ LAnswer q k c :: post ->
   In (LAwaitReg q k) pre /\
   exists d vis unv res e, In (LStore d Scheduled vis unv res) pre /\ In e vis /\ In (k, c) (offers (fst d) e).
 Proof. intros ls s H. exact (answer_facts ls (run_monitor ls s H)). Qed.
 Print Assumptions C06_answer_is_stored.
 
-Theorem C06_pubkey_is_stored : forall ls s, run init ls = Some s ->
+Theorem C06_pubkey_is_stored : forall ls s, run xinit ls = Some s ->
   forall pre slot comm vidx p post, ls = pre ++ LPubKey slot comm vidx (Some p) :: post ->
   exists d vis unv res e, In (LStore d Scheduled vis unv res) pre /\ In e vis /\ In ((slot, comm, vidx), p) (offers_pk (fst d) e).
 Proof. intros ls s H. exact (pubkey_facts ls (run_monitor ls s H)). Qed.
@@ -66,23 +68,43 @@ Print Assumptions C06_pubkey_is_stored.
 (* expired_refused: data for a duty the deadliner reports Expired (or Exempt) is refused with an
    error, no entry is even looked at, nothing changes; and that error is returned only then.
    (By C06_answer_is_stored such data is therefore never served.) *)
-Theorem C06_expired_refused : forall ls s, run init ls = Some s ->
+Theorem C06_expired_refused : forall ls s, run xinit ls = Some s ->
   forall pre d st vis unv res post, ls = pre ++ LStore d st vis unv res :: post ->
   (st <> Scheduled -> res = Some ERefused /\ vis = []) /\ (st = Scheduled -> res <> Some ERefused).
 Proof. intros ls s H. exact (refused_facts ls (run_monitor ls s H)). Qed.
 Print Assumptions C06_expired_refused.
 
-Theorem C06_expired_refused_no_change : forall s d st vis unv res s',
-  step s (LStore d st vis unv res) = Some s' -> st <> Scheduled -> s' = s.
+Theorem C06_expired_refused_no_change : forall s a d st vis unv res s' a',
+  step (s, a) (LStore d st vis unv res) = Some (s', a') -> st <> Scheduled -> s' = s.
 Proof. exact refused_no_change. Qed.
 Print Assumptions C06_expired_refused_no_change.
+
+(* The expiry verdict and the write of a Store are ONE atomic step: between [LAdd d st] (the
+   deadliner's verdict) and the [LStore d st ...] that ends that Store only events that do not need
+   the lock occur (the deadliner emitting duties, readers returning) - no other Store (hence no
+   processing of an expiry), no registration, no PubKeyByAttestation. *)
+Theorem C06_verdict_write_atomic : forall ls s, run xinit ls = Some s ->
+  forall pre d st mid l post, ls = pre ++ LAdd d st :: mid ++ l :: post ->
+  (forall x, In x mid -> passive x) ->
+  passive l \/ exists vis unv res, l = LStore d st vis unv res.
+Proof. intros ls s H. exact (verdict_write_atomic ls (run_monitor ls s H)). Qed.
+Print Assumptions C06_verdict_write_atomic.
+
+(* A history in which another Store processes the duty's expiry between the verdict (Scheduled,
+   before the expiry) and the write: disciplined, yet refused by the model and by the monitor
+   (first violation = the foreign LAdd at index 8). *)
+Theorem C06_verdict_write_race_rejected :
+  run xinit race_trace = None /\ monitor race_trace = false /\ disciplined race_trace = true /\
+  first_violation xginit race_trace 0 = Some 8%nat.
+Proof. exact verdict_write_race_rejected. Qed.
+Print Assumptions C06_verdict_write_race_rejected.
 
 (* clash_rejected_no_change: a set with a visited entry that conflicts with what is stored
    ([conflicts]: other block root for the slot; other attestation data for (slot, committee);
    other source or target for (slot, 0); other public key for (slot, committee, validator) or
    (slot, 0, validator); other contribution for (slot, subcommittee, block root)) is rejected with an error ... *)
-Theorem C06_clash_rejected : forall s t sl vis unv res s',
-  step s (LStore (t, sl) Scheduled vis unv res) = Some s' ->
+Theorem C06_clash_rejected : forall s a t sl vis unv res s' a',
+  step (s, a) (LStore (t, sl) Scheduled vis unv res) = Some (s', a') ->
   forall e, In e vis -> conflicts t e (st_db s) -> exists er, res = Some er /\ resolved_res res = false.
 Proof. exact clash_is_error. Qed.
 Print Assumptions C06_clash_rejected.
@@ -90,16 +112,16 @@ Print Assumptions C06_clash_rejected.
 (* ... and a Store returning such an error wakes nobody and only ADDS keys that were absent, with
    data of its visited entries ([ext]: every stored value / public key / bucket entry is kept as it
    was; what is new was absent before and comes from the visited entries) ... *)
-Theorem C06_clash_no_change : forall s t sl vis unv res s',
-  step s (LStore (t, sl) Scheduled vis unv res) = Some s' -> resolved_res res = false ->
+Theorem C06_clash_no_change : forall s a t sl vis unv res s' a',
+  step (s, a) (LStore (t, sl) Scheduled vis unv res) = Some (s', a') -> resolved_res res = false ->
   pend s' = pend s /\ outbox s' = outbox s /\ expq s' = expq s /\
   ext (flat_map (offers_v t) vis) (flat_map (offers_pk t) vis) (flat_map (offers_b t) vis) (st_db s) (st_db s').
 Proof. exact error_only_adds. Qed.
 Print Assumptions C06_clash_no_change.
 
 (* ... and no Store at all, successful or not, replaces the value stored under a key. *)
-Theorem C06_never_replaces : forall s d st vis unv res s',
-  step s (LStore d st vis unv res) = Some s' ->
+Theorem C06_never_replaces : forall s a d st vis unv res s' a',
+  step (s, a) (LStore d st vis unv res) = Some (s', a') ->
   forall k v v', lookup k (vals (st_db s)) = Some v -> lookup k (vals (st_db s')) = Some v' -> v' = v.
 Proof. exact store_never_replaces. Qed.
 Print Assumptions C06_never_replaces.
@@ -107,7 +129,7 @@ Print Assumptions C06_never_replaces.
 (* no_lost_wakeup, on the trace: once a Store that got as far as resolving has provided key k,
    every reader waiting for k returns before the next quiescent point; and a reader that asks for a
    provided key returns before the next quiescent point. *)
-Theorem C06_no_lost_wakeup_store : forall ls s, run init ls = Some s ->
+Theorem C06_no_lost_wakeup_store : forall ls s, run xinit ls = Some s ->
   forall pre d vis unv res mid post q k,
     ls = pre ++ LStore d Scheduled vis unv res :: mid ++ LQuiet :: post ->
     kind_of_dt (fst d) <> None -> resolved_res res = true ->
@@ -116,7 +138,7 @@ Theorem C06_no_lost_wakeup_store : forall ls s, run init ls = Some s ->
 Proof. intros ls s H. exact (wakeup_on_store ls (run_monitor ls s H)). Qed.
 Print Assumptions C06_no_lost_wakeup_store.
 
-Theorem C06_no_lost_wakeup_await : forall ls s, run init ls = Some s ->
+Theorem C06_no_lost_wakeup_await : forall ls s, run xinit ls = Some s ->
   forall pre q k mid post, ls = pre ++ LAwaitReg q k :: mid ++ LQuiet :: post ->
     provided pre k -> exists l, In l mid /\ returns q l.
 Proof. intros ls s H. exact (wakeup_on_await ls (run_monitor ls s H)). Qed.
@@ -124,22 +146,22 @@ Print Assumptions C06_no_lost_wakeup_await.
 
 (* no_lost_wakeup, on the state: right after a Store of a type that got as far as resolving (or
    after a registration for that type) no pending query of that type has its key present ... *)
-Theorem C06_no_lost_wakeup_state_store : forall pre t sl vis unv res s kd,
-  run init (pre ++ [LStore (t, sl) Scheduled vis unv res]) = Some s ->
+Theorem C06_no_lost_wakeup_state_store : forall pre t sl vis unv res s a kd,
+  run xinit (pre ++ [LStore (t, sl) Scheduled vis unv res]) = Some (s, a) ->
   kind_of_dt t = Some kd -> resolved_res res = true ->
   forall q k, In (q, k) (pend s) -> k_kind k = kd -> lookup k (vals (st_db s)) = None.
 Proof. exact no_lost_wakeup_store. Qed.
 Print Assumptions C06_no_lost_wakeup_state_store.
 
-Theorem C06_no_lost_wakeup_state_await : forall pre q0 k0 s,
-  run init (pre ++ [LAwaitReg q0 k0]) = Some s ->
+Theorem C06_no_lost_wakeup_state_await : forall pre q0 k0 s a,
+  run xinit (pre ++ [LAwaitReg q0 k0]) = Some (s, a) ->
   forall q k, In (q, k) (pend s) -> k_kind k = k_kind k0 -> lookup k (vals (st_db s)) = None.
 Proof. exact no_lost_wakeup_await. Qed.
 Print Assumptions C06_no_lost_wakeup_state_await.
 
 (* ... and at any time a pending query whose key is present exists only for a type that has had a
    FAILED Store (partial effects) since its queries were last resolved. *)
-Theorem C06_stale_only_after_failed_store : forall ls s, run init ls = Some s ->
+Theorem C06_stale_only_after_failed_store : forall ls s a, run xinit ls = Some (s, a) ->
   forall q k, In (q, k) (pend s) -> lookup k (vals (st_db s)) <> None -> In (k_kind k) (g_dirty (ghost_after ginit ls)).
 Proof. exact stale_only_after_failed_store. Qed.
 Print Assumptions C06_stale_only_after_failed_store.
@@ -147,6 +169,6 @@ Print Assumptions C06_stale_only_after_failed_store.
 (* Non-vacuity: a disciplined history with blocked-then-woken readers, a clash with a partial
    effect, a cancellation, an expiry and a refused late store is a trace of the model. *)
 Theorem C06_demo_accepted :
-  (exists s, run init demo_trace = Some s) /\ monitor demo_trace = true /\ disciplined demo_trace = true.
+  (exists s, run xinit demo_trace = Some s) /\ monitor demo_trace = true /\ disciplined demo_trace = true.
 Proof. exact demo_accepted. Qed.
 Print Assumptions C06_demo_accepted.
